@@ -3,7 +3,7 @@
    ExtrOcamlString (ascii -> char, string -> char list).  No Extract Constant of our own. *)
 From Coq Require Import Extraction ExtrOcamlBasic ExtrOcamlString.
 From Ucg Require Import base.Bytes data.Val prec.Climb env.Collector env.Out data.Json data.MapJson data.B64 path.Path sem.Ast sem.Sem sem.FloatInst shell.Shell lex.Lex_Types lex.Vocab lex.Lex vm.Ops vm.Translate vm.Vm vm.Compile_Rel vm.Compile_Correct.
-From Ucg Require Import env.Import env.Batch lsp.Docs.
+From Ucg Require Import env.Import env.Batch lsp.Docs shape.Shape data.Xml.
 From UcgGen Require Import PrecTable DocPrecTable.
 
 Extraction Language OCaml.
@@ -46,3 +46,24 @@ Extraction "model_batch.ml" batch_current batch_legacy exit_status default_fuel 
 Definition lsp_run (disk : store) (ms : list msg) : state * list (uri * option store) :=
   Docs.run (option store) (fun w _ _ => Some w) None disk (Docs.init disk) ms.
 Extraction "model_lsp.ml" lsp_run.
+
+(* C06 / C07: shape narrowing, the static checker and constraint checking (floats as bit patterns) *)
+Definition x_builds := builds bits_ops.
+Definition x_build_accepts := build_accepts bits_ops.
+Definition x_build_accepts_prog := build_accepts_prog bits_ops.
+Definition x_build_accepts_named := build_accepts_named bits_ops.
+Definition x_build_accepts_let_named := build_accepts_let_named bits_ops.
+Definition x_conforms := conforms bits_ops.
+Definition x_conforms_strict := conforms_strict bits_ops.
+Definition x_constraint_grammar := constraint_grammar bits_ops.
+Definition x_literal_value := literal_value bits_ops.
+Definition x_check := fun ss => match check_stmts ss [] with Some _ => true | None => false end.
+Definition x_build_prog := build_prog bits_ops.
+Definition x_inhabitsb := inhabitsb bits_ops.
+Extraction "model_shape.ml" x_builds x_build_accepts x_build_accepts_prog x_build_accepts_named
+  x_build_accepts_let_named x_conforms x_conforms_strict x_constraint_grammar x_literal_value x_check
+  x_build_prog narrow narrow_st derive derive_st check_stmts x_inhabitsb shape_eqb.
+
+(* C12: the xml converter, the EventWriter and an independent XML 1.0 reader *)
+Extraction "model_xml.ml" to_xml_r to_xml xml_emit_r xml_emit xml_output xml_parse tree_of_doc tree_of_events
+  events_of_tree as_written xml_tree_wf valid_names strip_ws_doc.
